@@ -764,8 +764,8 @@ def execute(plan: dict) -> dict:
 
 def families(tier: str):
     if tier == "quick":
-        return [("sched", 220), ("damage", 60), ("sweepq", 12), ("sweepd", 12)]
-    return [("sched", 12000), ("damage", 3000), ("sweepq", 700), ("sweepd", 900), ("full", 32)]
+        return [("sched", 220), ("damage", 60), ("sweepq", 12), ("sweepd", 12), ("sweepfull", 1)]
+    return [("sched", 12000), ("damage", 3000), ("sweepq", 700), ("sweepd", 900), ("full", 32), ("sweepfull", 6)]
 
 
 def _workload(rng: random.Random, n_max: int = 6, need_cfg: bool = False):
@@ -864,6 +864,14 @@ def gen_plan(family: str, i: int, rng: random.Random, tier: str) -> dict:
             }
         width = 16 if which == "quick" else 48
         return {"profile": "tiny", "phases": [{"kind": "sweep", "file": which, "from": i * width, "to": (i + 1) * width, "stride": 1, "special": i == 0}]}
+    if family == "sweepfull":
+        # the shipped data folder: its quick-info cache is larger than one pickle frame (64 KiB), so only here do
+        # truncations exactly at / next to a frame boundary exist; special points only (0, 1, 2, boundaries +-1, n-2, n-1)
+        which = "quick" if i % 2 == 0 else "data"
+        lo = 1 << 29  # no regular positions, only the special ones
+        if i >= 2:
+            lo = 60000 + 977 * i  # thorough: a few strided positions around the first frame boundary as well
+        return {"profile": "full", "phases": [{"kind": "sweep", "file": which, "from": lo, "to": lo + (0 if i < 2 else 9000), "stride": 1499, "special": True}]}
     if family == "full":
         phases = []
         if rng.random() < 0.5:
